@@ -52,14 +52,14 @@ Damage ==
   /\ \E d \in Damages(disk) :
        /\ dmg' = d
        /\ disk' = Apply(disk, d)
-  /\ UNCHANGED outcome
+  /\ UNCHANGED <<outcome, wvars>>
 
 OpenAndSearch ==
   /\ dmg # NoDamage /\ outcome = "none"
   /\ outcome' = Outcome(disk, dmg, Cfg)
-  /\ UNCHANGED <<disk, dmg>>
+  /\ UNCHANGED <<disk, dmg, wvars>>
 
-FNext == (Damage \/ OpenAndSearch) /\ UNCHANGED wvars
+FNext == Damage \/ OpenAndSearch
 
 FileSpec == FInit /\ [][FNext]_vars
 
